@@ -448,7 +448,7 @@ Definition tracker_group_ok (g : value) : bool :=
   match g with VList ts => forallb is_string ts | _ => false end.
 Definition parse_tracker (m : list (bytes * value)) : lres unit :=
   match lookup k_announce_list m with
-  | Some (VList (_ :: _ as al)) =>
+  | Some (VList ((_ :: _) as al)) =>
       if existsb is_list al then
         (if forallb tracker_group_ok al then LOk tt else LErr EBencode)
       else match lookup k_announce m with
